@@ -1,7 +1,7 @@
 ---- MODULE Gen_Message ----
 (* Composition histories (binding G) for C20: New; Sign*; [Encrypt; Decrypt]; Export; Import.     *)
 EXTENDS Naturals, Sequences, FiniteSets, TLC
-Contents == {"empty", "ascii", "utf8", "latin1-hint", "binary", "big", "farcopy"}   \* farcopy: 24 KB whose second half repeats the first (back-references 12 000 octets away)
+Contents == {"empty", "ascii", "utf8", "latin1-hint", "binary", "big", "farcopy", "bom"}   \* farcopy: 24 KB whose second half repeats the first (back-references 12 000 octets away)
 Formats == {"auto", "b", "t", "u"}
 Names == {"none", "console", "nonascii", "long255"}
 Comps == {0, 1, 2, 3}
@@ -17,6 +17,7 @@ Diff == Cardinality({f \in DOMAIN sc : sc[f] # Base[f]})
 Sensible == /\ (sc.format = "t" => sc.content \in {"ascii", "empty", "latin1-hint"}) /\ (sc.format = "u" => sc.content \in {"ascii", "utf8", "empty"})
             /\ (sc.content = "latin1-hint" => sc.format \in {"t", "auto"})
             /\ (sc.content = "farcopy" => sc.format \in {"b", "auto"})
+            /\ (sc.content = "bom" => sc.format \in {"u", "auto", "t"})
             /\ (sc.when = "encrypt-then-sign" => sc.enc # "none" /\ Len(sc.signers) >= 1)
             /\ (sc.sametick => Len(sc.signers) >= 2)
 Chosen == Sensible /\ (Diff <= 2 \/ (sc.comp \in {0, 2} /\ Len(sc.signers) >= 2 /\ sc.content = "ascii" /\ sc.format = "auto" /\ sc.name = "none" /\ ~sc.armor))
